@@ -875,6 +875,11 @@ class Gen:
                 side = self.force_side
         elif self.key_join:
             pass
+        elif self.want("join_const", 0.04):
+            # the cross-join idiom and conditions that constant-fold: `join x true`, `join side:left x (1 == 1)`, `.. false`
+            cond_t, cond_s = rng.choice([("true", "( lit T )"), ("(1 == 1)", "( eq ( lit 1 ) ( lit 1 ) )"), ("true", "( lit T )"),
+                                         ("(2 > 3)", "( gt ( lit 2 ) ( lit 3 ) )"), ("false", "( lit F )")])
+            side = rng.choice(["inner", "left", "right", "full", "left", "right"])
         elif lframe[a].name == rframe2[b].name and rng.random() < 0.5 and \
                 sum(1 for c in lframe if c.name == lframe[a].name) == 1 and sum(1 for c in rframe2 if c.name == lframe[a].name) == 1:
             cond_t = f"=={lframe[a].name}"
@@ -1221,7 +1226,7 @@ def systematic_cases(maxlen, profile, seed=7, sample=None, kinds=ALL_KINDS, vari
     return out
 
 
-def sequence_cases(seqs, profile, seed=7, variants=1, maxrows=6):
+def sequence_cases(seqs, profile, seed=7, variants=1, maxrows=6, empty_p=0.0):
     """`variants` programs for each of the given sequences of transform kinds (seed-independent)"""
     import zlib
     out = []
@@ -1235,7 +1240,7 @@ def sequence_cases(seqs, profile, seed=7, variants=1, maxrows=6):
                     ExprGen.functions = g.functions
                     c = g.program()
                     ExprGen.functions = False
-                    c.db = gen_db(rng, g.schema, maxrows=maxrows, empty_p=0.0)
+                    c.db = gen_db(rng, g.schema, maxrows=maxrows, empty_p=empty_p)
                     c.seq = seq
                     out.append(c)
                     break
@@ -1255,6 +1260,14 @@ def carried_order_join_cases(profile, seed=37, variants=3):
             for tail in [("group_agg",), ("aggregate",), ("group_take",), ("derive",), ("filter",), ("select",), ("group_agg", "sort"), ("take",), ()]:
                 seqs.append(first + mid + ("take",) + tail)
     return sequence_cases(seqs, dict(profile, key_join=True), seed=seed, variants=variants, maxrows=7)
+
+
+def const_join_cases(profile, seed=41, variants=10):
+    """joins whose condition is the literal `true` / `false` or constant-folds to one (the cross-join idiom), every join side,
+    over databases in which a joined table is often empty (an outer join still returns the padded rows of the other side)"""
+    seqs = [("join",), ("join", "aggregate"), ("join", "select"), ("filter", "join"), ("join", "group_agg"), ("join", "sort", "take"),
+            ("join", "derive", "filter")]
+    return sequence_cases(seqs, dict(profile, shapes=True, force_shape=["join_const"]), seed=seed, variants=variants, maxrows=4, empty_p=0.4)
 
 
 def make_case(rng, **kw):
